@@ -39,6 +39,9 @@ func v2Throughput() *v2types.ProvisionedThroughput {
 	return &v2types.ProvisionedThroughput{ReadCapacityUnits: aws.Int64(5), WriteCapacityUnits: aws.Int64(5)}
 }
 
+// V2CreateInput builds the SDK v2 CreateTableInput of a table specification.
+func V2CreateInput(spec *TableSpec) *v2ddb.CreateTableInput { return v2CreateInput(spec) }
+
 func v2CreateInput(spec *TableSpec) *v2ddb.CreateTableInput {
 	in := &v2ddb.CreateTableInput{TableName: aws.String(spec.Name), KeySchema: v2KeySchema(spec.Hash, spec.Range)}
 	ad := specAttrDefs(spec)
